@@ -17,7 +17,8 @@ THEOREMS = [P + n for n in ("pick_perm", "pick_sorted", "pick_sublist", "sect_pu
                                                    "parseInst_words")] + \
            ["Rspirv.Props.Reload." + n for n in ("load_canon", "step_cinv", "canon_of_load", "load_header", "C01_reload")] + \
            ["Rspirv.Props.RoundTrip." + n for n in ("insts_asm", "assemble_load", "parse_header_form", "C01_reload_bytes",
-                                                    "grammarStreamB_sound")] + ["Rspirv.Props.C01End.C01_reload_scope"]
+                                                    "grammarStreamB_sound")] + ["Rspirv.Props.C01End.C01_reload_scope"] + \
+           ["Rspirv.Props.C01Layout." + n for n in ("asm_len", "insts_stream", "C01_reload_layout")]
 NEEDS = ("header", "core", "glsl", "opencl", "traversals", "decode", "operand_enum", "asm_arms", "parse_operand", "operands",
          "operand_reflect", "disas_operand")
 SECTION = {"cap": 0, "ext": 1, "imp": 2, "mm": 3, "ep": 4, "em": 5, "dbg1": 6, "dbg2": 7, "dbg3": 8, "ann": 9, "tgv": 10}
@@ -35,13 +36,30 @@ class Oracle:
 
     def __init__(self):
         self.expect = {}
+        self.same = {}
 
     def add(self, req, tagged, version, bound, padded=None):
         self.expect[req] = (tagged, version, bound, padded)
 
+    def add_same(self, req, words):
+        """if accepted, the instruction words must come back exactly (input in layout order, no string operands touched)"""
+        self.same[req] = words
+
     def __call__(self, req, resp):
         if resp.startswith("panic"):
             return "panicked: " + resp[6:100]
+        if req in self.same:
+            if not resp.startswith("ok "):
+                return None
+            words = [int(x) for x in resp[3:].split(",")]
+            want = self.same[req]
+            if words[1] != want[1] or words[3] != want[3]:
+                return f"header version/bound {words[1]:#x}/{words[3]} differ from the input's {want[1]:#x}/{want[3]}"
+            if words[5:] != want[5:]:
+                pos = next((j for j, (a, b) in enumerate(zip(words[5:], want[5:])) if a != b), min(len(words), len(want)) - 5)
+                return (f"accepted, but the instruction words differ from the input's at word {pos}: got {words[5 + pos:9 + pos]}, "
+                        f"the input has {want[5 + pos:9 + pos]}")
+            return None
         if req not in self.expect:
             return None
         tagged, version, bound, padded = self.expect[req]
@@ -120,7 +138,7 @@ def run(ctx):
         hok, herr = C.build_harness(ctx, bins=("impl",))
         have = C.need(ctx, *NEEDS)
         failing = C.prove(ctx, MODULE, THEOREMS, extra_targets=["driver"],
-                          files=["Rspirv/Props/C01.lean", "Rspirv/Props/C01Words.lean", "Rspirv/Props/Reload.lean", "Rspirv/Props/RoundTrip.lean", "Rspirv/Props/C02.lean", "Rspirv/Model/Loader.lean", "Rspirv/Model/LoadBytes.lean",
+                          files=["Rspirv/Props/C01.lean", "Rspirv/Props/C01Words.lean", "Rspirv/Props/Reload.lean", "Rspirv/Props/RoundTrip.lean", "Rspirv/Props/C01Layout.lean", "Rspirv/Props/C01End.lean", "Rspirv/Props/C02.lean", "Rspirv/Model/Loader.lean", "Rspirv/Model/LoadBytes.lean",
                                  "Rspirv/Model/Assemble.lean", "Rspirv/Model/Module.lean"]) if have else []
     for n, e in failing:
         ctx.issue(f"theorem:{n}", f"Lean obligation no longer checks: {e['msg'][:300]}", witness=e)
@@ -172,6 +190,47 @@ def run(ctx):
                 reqs.append(r)
                 oracle.add(r, tagged, version, bound)      # comes back zero padded = the generator's own encoding
                 stats["string-padding"] += 1
+    # operand-word mutants of layout-ordered modules: one operand word of an instruction without string operands is set to a
+    # boundary value (first words untouched: same instruction boundaries, same opcodes, still layout order). Whatever the
+    # loader makes of it: if the binary is accepted, the words must come back unchanged from the first instruction on.
+    BOUND = [0, 1, 0xffff, 0x10000, 0x10001, 0x7fffffff, 0x80000000, 0xffffffff]
+    nmut = 0
+    for mi in range(40 if ctx.tier == "quick" else 800):
+        tagged = mg.module(size=rnd.choice([0.5, 1.0]))
+        words = instgen.header(version=0x00010300, bound=4000)
+        spans = []
+        for _, i in tagged:
+            w = i.words()
+            if len(w) > 1 and not any(o.kind == "s" for o in i.ops):
+                spans.append((len(words) + 1, len(words) + len(w)))
+            words += w
+        if not spans:
+            continue
+        for _ in range(6):
+            a, b = rnd.choice(spans)
+            k = rnd.randrange(a, b)
+            w2 = list(words)
+            w2[k] = rnd.choice(BOUND + [words[k] | 0x10000, words[k] ^ 0x10000, words[k] | 0xffff0000, (words[k] + 1) & 0xffffffff])
+            if w2[k] == words[k]:
+                continue
+            r = "loadasm " + instgen.to_bytes(w2).hex()
+            reqs.append(r)
+            oracle.add_same(r, w2)
+            nmut += 1
+    # the opcode word embedded in OpSpecConstantOp is a full 32-bit literal: every nestable opcode with high bits set
+    for r_ in g.nestable()[:: (1 if ctx.tier != "quick" else 3)]:
+        g.next_id = 10
+        ops = g.spec_op(force=r_, many=1)
+        inst = instgen.Inst(g.opv["SpecConstantOp"], "SpecConstantOp", 3, 4, ops)
+        base = instgen.header(version=0x00010300, bound=4000) + inst.words()
+        for hi in (0x00010000, 0xffff0000):
+            w2 = list(base)
+            w2[5 + 3] |= hi
+            r = "loadasm " + instgen.to_bytes(w2).hex()
+            reqs.append(r)
+            oracle.add_same(r, w2)
+            nmut += 1
+    stats["operand-word mutants"] = nmut
     # the recorded finding: a parameter after the function's first label is filed in front of the blocks
     E = {r["name"]: r for r in g.core}
     g.next_id = 1
@@ -274,7 +333,7 @@ def run(ctx):
     ctx.coverage["requests"] = stats
     ops = set()
     for r in reqs:
-        for _, i in oracle.expect[r][0]:
+        for _, i in oracle.expect.get(r, ([],))[0]:
             ops.add(i.name)
     ctx.distinct |= ops
     ctx.samples = [{"request": reqs[i][:80], "implementation": impl[i][:100]} for i in (0, len(reqs) // 2, len(reqs) - 1)]
